@@ -253,10 +253,9 @@ func genHubCase(rr *h.Rand, o *gen.Oracle, focus string) hubCase {
 		}
 	}
 
-	if (focus == "events" || focus == "api") && cs.Cfg.Bolt && cs.Cfg.Subscriptions && rr.Chance(1, 6) {
+	if (focus == "events" || focus == "api") && cs.Cfg.Bolt && cs.Cfg.Subscriptions && cs.Size == 0 && rr.Chance(1, 4) {
 		// a registration that fails half-way: an undecodable entry in the history makes the replay, and so
-		// AddSubscriber, fail after the subscriber was announced (not modelled: the comparison with the model
-		// stops at the corruption, the oracles go on)
+		// AddSubscriber, fail after the subscriber was announced (the model's `connectFail` operation)
 		cs.Ops = append(cs.Ops, hubOp{Op: "pub", Form: url.Values{"topic": {"https://example.com/x"}, "id": {"before-corruption"}, "data": {"d"}}, Claims: claimsJSON("publish", []string{"*"}, "")},
 			hubOp{Op: "corrupt"},
 			hubOp{Op: "sub", Label: 900, Topics: []string{h.Pick(rr, p.sels), h.Pick(rr, p.sels)}, LeidQ: "earliest", Claims: claimsJSON("subscribe", []string{"*"}, "who")},
